@@ -104,3 +104,76 @@ func (c *VerifC19Caller) Commit(force bool) error { return c.s.commit(force) }
 func (c *VerifC19Caller) Tasks() map[common.Hash][]string { return dumpTasks(c.s.tasks) }
 
 func (c *VerifC19Caller) Counters() (int, int) { return c.s.numUncommitted, c.s.bytesUncommitted }
+
+// ---- launching: launchTrieSync / trieFetcher / run / loop ------------------------
+// A Downloader with exactly what the trie sync entry points touch (channels, peer
+// set, a chain that only knows TrieBackingDb).  The fetcher goroutine is started
+// by the harness, so that "the fetcher is busy" can be staged.  Everything below
+// calls the real functions; nothing is re-implemented.
+
+type verifC19Chain struct {
+	LightChain
+	db youdb.Database
+}
+
+func (c *verifC19Chain) TrieBackingDb(kind types.TrieKind) youdb.Database { return c.db }
+
+type VerifC19Launcher struct{ d *Downloader }
+
+func VerifC19NewLauncher(db youdb.Database) *VerifC19Launcher {
+	return &VerifC19Launcher{&Downloader{
+		lightchain:    &verifC19Chain{db: db},
+		peers:         newPeerSet(),
+		dropPeer:      func(string) {},
+		quitCh:        make(chan struct{}),
+		cancelCh:      make(chan struct{}),
+		trieCh:        make(chan dataPack),
+		trieSyncStart: make(chan *trieSync),
+		trackTrieReq:  make(chan *trieReq),
+		rttEstimate:   uint64(rttMaxEstimate),
+		rttConfidence: uint64(1000000),
+	}}
+}
+
+func (l *VerifC19Launcher) StartFetcher() { go l.d.trieFetcher() }
+func (l *VerifC19Launcher) Cancel()       { l.d.cancel() }
+func (l *VerifC19Launcher) Quit() {
+	l.d.quitLock.Lock()
+	select {
+	case <-l.d.quitCh:
+	default:
+		close(l.d.quitCh)
+	}
+	l.d.quitLock.Unlock()
+}
+
+// NewCycle re-creates the cancel channel, as synchronise does when a sync cycle starts.
+func (l *VerifC19Launcher) NewCycle() {
+	l.d.cancelLock.Lock()
+	l.d.cancelCh = make(chan struct{})
+	l.d.cancelLock.Unlock()
+}
+
+func (l *VerifC19Launcher) RegisterPeer(id string, p Peer) error { return l.d.RegisterPeer(id, p) }
+func (l *VerifC19Launcher) UnregisterPeer(id string) error       { return l.d.peers.Unregister(id) }
+func (l *VerifC19Launcher) DeliverNodeData(id string, data [][]byte) error {
+	return l.d.DeliverNodeData(id, data)
+}
+
+func (l *VerifC19Launcher) FetchVldTrie(root common.Hash) error     { return l.d.FetchVldTrie(root) }
+func (l *VerifC19Launcher) FetchStakingTrie(root common.Hash) error { return l.d.fetchStakingTrie(root) }
+
+// VerifC19Task is a launched state sync (syncState returns once the task was
+// handed to the fetcher or closed by launchTrieSync).
+type VerifC19Task struct{ t *trieSync }
+
+func (l *VerifC19Launcher) SyncState(root common.Hash) *VerifC19Task {
+	return &VerifC19Task{l.d.syncState(root)}
+}
+func (t *VerifC19Task) Wait() error { return t.t.Wait() }
+func (t *VerifC19Task) Pending() int { return t.t.sched.Pending() }
+
+var (
+	VerifC19ErrCanceled        = errCanceled
+	VerifC19ErrCancelTrieFetch = errCancelTrieFetch
+)
